@@ -48,7 +48,10 @@ type sendOp struct {
 }
 
 func (o sendOp) Enabled() bool  { return sendReady(o.sc, o.ch) }
-func (o sendOp) String() string { return fmt.Sprintf("send(%#x)", chanPtr(o.ch)) }
+func (o sendOp) String() string {
+	v := reflect.ValueOf(o.ch)
+	return fmt.Sprintf("send(%#x %s len=%d cap=%d)", chanPtr(o.ch), v.Type().Elem(), v.Len(), v.Cap())
+}
 
 type recvOp struct {
 	sc *sched
@@ -56,7 +59,10 @@ type recvOp struct {
 }
 
 func (o recvOp) Enabled() bool  { return recvReady(o.sc, o.ch) }
-func (o recvOp) String() string { return fmt.Sprintf("recv(%#x)", chanPtr(o.ch)) }
+func (o recvOp) String() string {
+	v := reflect.ValueOf(o.ch)
+	return fmt.Sprintf("recv(%#x %s len=%d cap=%d)", chanPtr(o.ch), v.Type().Elem(), v.Len(), v.Cap())
+}
 
 func checkAbort() {
 	if s != nil && s.aborted {
